@@ -1,4 +1,4 @@
-"""Engine self-test run by the bootstrap: micro-conditions that exercise the two engine patches
+"""Engine self-test run by the bootstrap: micro-conditions that exercise the three engine patches
 must be confirmed, seeded-false twins must be refuted (DESIGN.md section 5.3)."""
 import json
 import os
@@ -47,6 +47,25 @@ def z4(a: int, b: int) -> bool:
     parts = t[1:-1].split('..')
     return int(parts[0]) == a and int(parts[1]) == b
 
+def z5(n: str) -> bool:
+    """
+    pre: 1 <= len(n) <= 2
+    post: _
+    """
+    a = 'abcd' + n + 'XY'
+    c = a[:4 + len(n)] + a[4 + len(n):]
+    return c == a and a == c
+
+def z6(n: str) -> bool:
+    """
+    pre: 1 <= len(n) <= 3
+    post: _
+    """
+    r = ('A : ' + ' [2,2]{Aa ' + n + '}').strip() + ';' + chr(10)
+    whole = '%R' + chr(10) + r + (n + '.cost: x;') + '%C'
+    e = '%R' + chr(10) + 'A :  [2,2]{Aa ' + n + '};' + chr(10) + n + '.cost: x;%C'
+    return len(whole) == len(e) and whole == e
+
 def f1(s: str) -> bool:
     """
     pre: 1 <= len(s) <= 3
@@ -55,6 +74,15 @@ def f1(s: str) -> bool:
     x = chr(34) + s + chr(34)
     return x[1:-1] != s
 
+def f3(n: str) -> bool:
+    """
+    pre: 1 <= len(n) <= 3
+    post: _
+    """
+    a = 'ab' + n + 'cd'
+    c = ('ab' + n)[:2 + len(n)] + 'c' + ('d' if n != 'Qz' else 'e')
+    return c == a
+
 def f2(a: int, b: int) -> bool:
     """
     pre: 0 <= a <= b <= 3
@@ -62,7 +90,7 @@ def f2(a: int, b: int) -> bool:
     """
     return not (a == 1 and b == 2)
 
-CONDITIONS = ['z1', 'z2', 'z3', 'z4', 'f1', 'f2']
+CONDITIONS = ['z1', 'z2', 'z3', 'z4', 'z5', 'z6', 'f1', 'f2', 'f3']
 TIMEOUTS = {}
 '''
 
@@ -83,11 +111,11 @@ def main():
         import shutil
         shutil.rmtree(d, ignore_errors=True)
     ok = True
-    for n in ('z1', 'z2', 'z3', 'z4'):
+    for n in ('z1', 'z2', 'z3', 'z4', 'z5', 'z6'):
         if res.get(n) != ['confirmed']:
             print('selftest: %s expected confirmed, got %s' % (n, res.get(n)), file=sys.stderr)
             ok = False
-    for n in ('f1', 'f2'):
+    for n in ('f1', 'f2', 'f3'):
         if res.get(n) != ['post_fail']:
             print('selftest: %s expected refuted, got %s' % (n, res.get(n)), file=sys.stderr)
             ok = False
